@@ -226,3 +226,8 @@ def nontrivial(case, result):
         w = int(toks[1])
         return from_digits(parse_L(toks[3]), w) >= int(toks[4][2:], 16)
     return result.startswith("L:") and result.count(",") >= 1
+
+
+def prebuild(root):
+    """translator: regenerate coq/Generated/ParseGen.v (radix_base_half is tied to the model in Proofs/ParseGenTieHalf.v)"""
+    return run_translator(root, "rs2v_parse.py", "C11")
